@@ -175,7 +175,7 @@ func goneNick(st state.Tracker, u string) bool { return false }
 type sessionOpts struct {
 	lines    int
 	tracking bool
-	end      string // "", "close", "eof"
+	end      string // "", "close", "eof", "reconnect" (EOF while a foreground handler runs, then the same script on a new connection)
 	linger   bool   // handlers linger now and then
 	misbe    bool   // handlers panic / block now and then
 	holdInt  bool   // delay the internal phase now and then
@@ -204,6 +204,10 @@ func installHook() {
 func runSession(t *tlog, o sessionOpts, rng *rand.Rand) (stats map[string]int, err error) {
 	stats = map[string]int{}
 	ls := script(o.lines, rng, o.tracking)
+	if o.end == "eof" {
+		// a server announces the end of the link before it closes it
+		ls = append(ls, tline{raw: "ERROR :Closing Link: me2[client.host] (Quit: bye)", verb: "ERROR"})
+	}
 	index := map[string]int{}
 	for k := 1; k < len(ls); k++ {
 		index[ls[k].raw] = k
@@ -212,9 +216,10 @@ func runSession(t *tlog, o sessionOpts, rng *rand.Rand) (stats map[string]int, e
 	hrng := rand.New(rand.NewSource(rng.Int63()))
 	rnd := func(n int) int { rmu.Lock(); defer rmu.Unlock(); return hrng.Intn(n) }
 	t.add(event{Ev: "reset"})
+	var gen2 int32 // set when a "reconnect" session is on its second connection, which is not recorded
 	s := sess.New(func(c *client.Config) {
 		c.Recover = func(conn *client.Conn, l *client.Line) {
-			if x := recover(); x != nil {
+			if x := recover(); x != nil && atomic.LoadInt32(&gen2) == 0 {
 				t.add(event{Ev: "recover"})
 			}
 		}
@@ -225,6 +230,19 @@ func runSession(t *tlog, o sessionOpts, rng *rand.Rand) (stats map[string]int, e
 	}
 	forever := make(chan struct{})
 	var nblocked int32
+	// "reconnect" sessions: the first foreground handler of line gateK stays inside until the second
+	// connection has applied line gateK+1 (or 400 ms have passed); the second connection is not recorded
+	gate, entered := make(chan struct{}), make(chan struct{})
+	var enteredOnce sync.Once
+	gateK := 0
+	if o.end == "reconnect" && o.tracking {
+		for k := 3; k+1 < len(ls); k++ {
+			if ls[k+1].witness != nil && !ls[k].ipanic && !ls[k+1].ipanic {
+				gateK = k
+				break
+			}
+		}
+	}
 	witness := func(k int) bool {
 		if k < 1 || k >= len(ls) || ls[k].witness == nil {
 			return k >= 1 && k < len(ls) // lines without a witness: trivially reflected
@@ -249,6 +267,9 @@ func runSession(t *tlog, o sessionOpts, rng *rand.Rand) (stats map[string]int, e
 	maxSeen, gapped := 0, false
 	mk := func(kind, h string) client.HandlerFunc {
 		return func(c *client.Conn, l *client.Line) {
+			if atomic.LoadInt32(&gen2) == 1 {
+				return
+			}
 			k := index[l.Raw]
 			if l.Cmd == client.CONNECTED {
 				k = 1
@@ -279,6 +300,13 @@ func runSession(t *tlog, o sessionOpts, rng *rand.Rand) (stats map[string]int, e
 				t.add(event{Ev: "ipanic"})
 			}
 			t.add(event{Ev: "enter", Kind: kind, H: h, K: k, Wk: wk, Wnext: kind != "bg" && !gp && next(k)})
+			if gateK != 0 && k == gateK && kind == "fg" && h == "f1" {
+				enteredOnce.Do(func() { close(entered) })
+				select {
+				case <-gate:
+				case <-time.After(400 * time.Millisecond):
+				}
+			}
 			out := "ret"
 			if o.misbe {
 				switch x := rnd(40); {
@@ -358,6 +386,37 @@ func runSession(t *tlog, o sessionOpts, rng *rand.Rand) (stats map[string]int, e
 			t.add(event{Ev: "nodisc"})
 			stats["nodisc"]++
 		}
+	case "reconnect":
+		s.Srv.SendStream(stream, cuts)
+		if gateK != 0 {
+			select {
+			case <-entered:
+			case <-time.After(5 * time.Second):
+				return stats, fmt.Errorf("line %d was never dispatched", gateK)
+			}
+		}
+		s.Srv.EOF()
+		select {
+		case <-discSeen:
+		case <-time.After(10 * time.Second):
+			return stats, fmt.Errorf("no DISCONNECTED after EOF")
+		}
+		atomic.StoreInt32(&gen2, 1)
+		if err := s.Connect(); err != nil {
+			return stats, fmt.Errorf("reconnect: %v", err)
+		}
+		if _, ok := s.Srv.WaitLine("USER ", 0, 5*time.Second); !ok {
+			return stats, fmt.Errorf("no registration on the second connection")
+		}
+		for k := 1; k <= gateK+1 && k < len(ls); k++ {
+			s.Srv.SendLines(ls[k].raw)
+		}
+		if !s.Sync(10 * time.Second) {
+			return stats, fmt.Errorf("the second connection does not answer PING")
+		}
+		close(gate)
+		stats["reconnects"]++
+		time.Sleep(2 * time.Millisecond)
 	case "close":
 		s.Srv.SendStream(stream, cuts)
 		time.Sleep(time.Duration(rng.Intn(3000)) * time.Microsecond)
@@ -410,6 +469,9 @@ func RunPhases(args []string) int {
 	for i := 0; i < *n; i++ {
 		o := sessionOpts{lines: 10 + rng.Intn(*lines), tracking: i%5 != 4, linger: i%2 == 0, misbe: i%3 != 0, holdInt: i%2 == 1}
 		o.end = []string{"", "", "eof", "close"}[i%4]
+		if i%16 == 5 {
+			o.end, o.misbe, o.tracking = "reconnect", false, true
+		}
 		st, err := runSession(t, o, rng)
 		if err != nil {
 			fmt.Println("INCOMPLETE session", i, err)
